@@ -56,10 +56,14 @@ func (ts *TS) ownSetEnt(c *tsCtx, s *tsState, x ssa.Value, val ssa.Value, pos to
 		s.ent[t] = "N"
 		return s
 	}
+	// the value as the outermost caller sees it (an inlined helper receives it as a parameter)
+	vc := c
+	val, vc = c.resolve(val)
 	if !ts.isPrivate(c, s, t, x) { // a scratch object local to this function is not a fid
 		delete(s.pend, stripConv(val))
 	}
 	prior := s.ent[t]
+	c = vc
 	if prior == "B" {
 		// reviewed consumption: "Create consumes the parent handle" (filesys.go, Dirent.Create contract)
 		consumed := false
@@ -165,6 +169,10 @@ func (ts *TS) ownDelete(c *tsCtx, s *tsState, key ssa.Value) *tsState {
 }
 
 func (c *tsCtx) prefixlessSym(v ssa.Value) string {
+	// an inlined helper sees the fid through its parameter: resolve to the caller's value
+	if rv, rc := c.resolve(v); rc != c {
+		return rc.prefixlessSym(rv)
+	}
 	// closures see the fid through a captured cell: resolve to the parent's value when possible
 	if u, ok := stripConv(v).(*ssa.UnOp); ok && u.Op == token.MUL {
 		if fv, ok := u.X.(*ssa.FreeVar); ok && c.env != nil && c.parent != nil {
